@@ -171,7 +171,7 @@ func genPopulation(r *Rng, c *sessCase, v5mask int, wills bool, timed bool) {
 		case x < 47:
 			c.Ops = append(c.Ops, sessOp{Op: "pub", T: r.Intn(2)})
 		case x < 55:
-			c.Ops = append(c.Ops, sessOp{Op: []string{"retain", "retain", "unretain"}[r.Intn(3)], T: r.Intn(3), V5: r.Chance(50)})
+			c.Ops = append(c.Ops, sessOp{Op: []string{"retain", "retain", "unretain"}[r.Intn(3)], T: r.Intn(4), V5: r.Chance(50)})
 		case connected[id] && x < 70:
 			op := sessOp{Op: "disc", ID: id, Expiry: -1, WithWill: r.Chance(30)}
 			if r.Chance(25) && canSetExpiry[id] {
@@ -238,7 +238,7 @@ func init() {
 			}
 			switch r.Intn(4) {
 			case 3:
-				c.Ops = append(c.Ops, sessOp{Op: []string{"retain", "unretain", "unretain"}[r.Intn(3)], T: r.Intn(3), V5: r.Chance(50)})
+				c.Ops = append(c.Ops, sessOp{Op: []string{"retain", "unretain", "unretain"}[r.Intn(3)], T: r.Intn(4), V5: r.Chance(50)})
 			case 0:
 				c.Ops = append(c.Ops, sessOp{Op: "pub", T: r.Intn(2)})
 			case 1:
@@ -249,7 +249,7 @@ func init() {
 					// what was unsubscribed after one restart must not come back with the next one
 					c.Ops = append(c.Ops, sessOp{Op: "unsub", ID: op.ID, T: 0}, sessOp{Op: "unsub", ID: op.ID, T: 1})
 				} else if r.Chance(60) {
-					c.Ops = append(c.Ops, sessOp{Op: "sub", ID: op.ID, T: r.Intn(3)})
+					c.Ops = append(c.Ops, sessOp{Op: "sub", ID: op.ID, T: r.Intn(4)})
 				} else {
 					// its restored subscriptions (No Local included) apply to its own publishes
 					c.Ops = append(c.Ops, sessOp{Op: "selfpub", ID: op.ID, T: 0}, sessOp{Op: "selfpub", ID: op.ID, T: 1})
